@@ -242,3 +242,31 @@ def run(repo: Repo, chk: Check, thorough: bool = False) -> None:
            CFG(gen).before(hdr[0], comp[0]) if comp and hdr else False,
            'header written before the zlib-compressed content (what _getPayload strips and inflates)', gen.loc)
     chk.require('R17.4', 8)
+
+    # ------------------------------------------------------------ R17.5 the inventory lists what was written
+    mk = repo.func('pydoctor.driver.make')
+    cfgk = CFG(mk)
+    wr = [c for c in calls_in(mk) if call_name(c) == 'writeIndividualFiles']
+    gn = [c for c in calls_in(mk) if call_name(c) == 'generate']
+    if not wr or not gn:
+        chk.error('R17.5: writeIndividualFiles(...) / generate(...) calls not found in driver.make')
+    else:
+        wa = wr[0].args[0] if wr[0].args else None
+        ga = next((kw.value for kw in gn[0].keywords if kw.arg == 'subjects'), gn[0].args[0] if gn[0].args else None)
+        same = isinstance(wa, ast.Name) and isinstance(ga, ast.Name) and wa.id == ga.id
+        chk.ob('R17.5', 'pydoctor.driver.make :: inventory subjects are the written subjects', same,
+               f'both use `{wa.id}`' if same and isinstance(wa, ast.Name) else 'generate() and writeIndividualFiles() receive different variables', mk.loc)
+        if same and isinstance(wa, ast.Name):
+            after = cfgk.reachable(cfgk.stmt_of(wr[0]), no_exc=True)
+            rebinds = [n for n in mk.walk() if isinstance(n, ast.Assign) and id(n) in after and
+                       any(isinstance(t, ast.Name) and t.id == wa.id for t in n.targets)]
+            bad = []
+            for rb in rebinds:
+                tests = cfgk.dominating_tests(rb)
+                if not any((isinstance(t, ast.UnaryOp) and isinstance(t.op, ast.Not) and 'makehtml' in norm(t.operand) and pol) or
+                           ('makehtml' in norm(t) and not isinstance(t, ast.UnaryOp) and not pol) for t, pol in tests):
+                    bad.append(rb)
+            chk.ob('R17.5', 'pydoctor.driver.make :: subjects only replaced when no HTML was written', not bad,
+                   'the subjects are re-bound only under `not options.makehtml`' if not bad else
+                   f'`{norm(bad[0])}` (line {bad[0].lineno}) replaces the subjects after the pages were written: the inventory maps names to pages '
+                   'that were not generated (--html-subject / --html-summary-pages)', mk.loc)
